@@ -267,13 +267,19 @@ def _run_fromU(case):
         if e:
             errs["shape"] = e
         u, e = _try(lambda: root.uncompress(list(dims)))
-        impl["unc"] = _unc(u)
+        impl["unc"] = _unc(u, len(dims))
         if e:
             errs["unc"] = e
+        elif impl["unc"] is None:
+            errs["unc"] = "NOT-A-NEST-OF-VALUES"
+
         u0, e = _try(lambda: root.uncompress())
-        impl["unc0"] = _unc(u0)
+        impl["unc0"] = _unc(u0, len(dims))
         if e:
             errs["unc0"] = e
+        elif impl["unc0"] is None:
+            errs["unc0"] = "NOT-A-NEST-OF-VALUES"
+
         side["result_unchanged_by_uncompress"] = snap(root) == impl["tree"]
     side["nest_unchanged"] = case["nest"] == nest0 and _types(case["nest"]) == _types(nest0)
     case["impl"], case["side"] = impl, side
@@ -286,8 +292,17 @@ def _types(n):
     return [_types(x) for x in n] if isinstance(n, list) else type(n).__name__
 
 
-def _unc(u):
+def _unc(u, depth=None):
+    """an uncompressed nest as JSON; None when it is not a nest of numbers of the expected depth
+    (e.g. filled with class objects, or of the wrong depth because the shape used was too short)"""
     if u is None:
+        return None
+
+    def ok(x, d):
+        if d == 0:
+            return not isinstance(x, list) and not isinstance(_num(x), dict)
+        return isinstance(x, list) and all(ok(y, d - 1) for y in x)
+    if depth is not None and not ok(u, depth):
         return None
     if isinstance(u, list):
         return [_unc(x) for x in u]
@@ -545,32 +560,28 @@ def _leaves(tree):
 # Known failure classes (root causes), in priority order.  A failing clause is attributed to a class
 # only when the case satisfies the class's input predicate; a failing clause that cannot be attributed
 # makes the signature "unclassified" and is therefore never hidden by known_findings.json.
-CLASSES = ["U2:fiber-shape-of-all-default-nest", "U1:uncompress-of-all-default-nest",
-           "Y1:yaml-load-of-tuple-coordinates", "Y3:default-not-carried-by-dict-or-yaml",
-           "Y2:fromYAMLfile-drops-tensor-name"]
+CLASSES = ["U2:fiber-shape-of-all-default-nest", "Y1:yaml-load-of-tuple-coordinates",
+           "Y3:default-not-carried-by-dict-or-yaml"]
 
 
 def _attribute(case, clause):
     op, impl = case["op"], case.get("impl") or {}
     if op == "fromU":
         alldef = all(x == case["dflt"] for x in _flat(case["nest"]))
-        if clause in ("uncompress", "uncompress-noarg") and alldef:
-            return CLASSES[1]
-        if (clause == "shape" and alldef and case["kind"] == "fiber" and len(case["dims"]) >= 2
-                and impl.get("shape") == [case["dims"][0]]):
-            return CLASSES[0]
+        deep = len(case["dims"]) >= 2
+        if alldef and deep and case["kind"] == "fiber" and impl.get("shape") == [case["dims"][0]]:
+            # the one-element shape itself, and uncompress() without argument which uses it
+            if clause in ("shape", "uncompress-noarg"):
+                return CLASSES[0]
     if op == "yaml":
         orig = case.get("orig") or {}
         tup = _has_tuple(orig.get("tree")) or any(isinstance(x, list) for x in orig.get("shape", []))
         if clause == "yaml-loads" and tup:
-            return CLASSES[2]
+            return CLASSES[1]
         odflt = orig.get("dflt", 0)
         if clause in ("yaml-equal", "dict-roundtrip-equal") and odflt != 0 and \
                 any(v == 0 or v == odflt for v in _leaves(orig.get("tree"))):
-            return CLASSES[3]
-        if (clause == "name" and case["kind"] == "tensor" and orig.get("depth", 0) >= 1
-                and orig.get("name", "") != "" and (impl.get("loaded") or {}).get("name") == ""):
-            return CLASSES[4]
+            return CLASSES[2]
     return None
 
 
